@@ -160,8 +160,8 @@ Example C06_nonvacuous_override :
 Proof. exact nonvacuous_override. Qed.
 
 (* fields declared as a bare type variable of a generic dataclass (`gv: T`), in the specialisation that binds T
-   (since /repo 4da7e9e the serializer's key dropping and the schema's `required` follow the binding; the schema of
-   the field itself is the empty schema).  C06_sound_partial covers such fields for every binding. *)
+   (since /repo 4da7e9e the serializer's key dropping and the schema's `required` follow the binding, and so does the
+   schema of the field).  C06_sound_partial covers such fields for every binding. *)
 Example C06_typevar_field_example :
   (env_ok E_tvo = true /\ ty_ok 9 E_tvo false false (TData "G[Optional[int]]") = true /\
    enc_ok 9 E_tvo false false (TData "G[Optional[int]]") (VObj [("gv", VNone); ("o", VNone); ("l", VList [VNone; VInt 1])])
@@ -179,12 +179,6 @@ Example C06_typevar_field_example :
              jvalid pm_any [] 50 s (JObj [("gv", JInt 1); ("l", JArr [JInt 2])]) = true /\
              jvalid pm_any [] 50 s (JObj [("l", JArr [])]) = false).
 Proof. exact typevar_field_example. Qed.
-
-Example C06_typevar_field_any_binding :
-  env_ok E_tvf = true /\ ty_ok 9 E_tvf false false (TData "G[F]") = true /\ ty_ok 9 E_tvf false false (TEnum "F") = false /\
-  enc_ok 9 E_tvf false false (TData "G[F]") (VObj [("gv", VFlag 3)]) (JObj [("gv", JInt 3)]) = true /\
-  exists s, schema_f E_tvf dl2020 false false 9 (TData "G[F]") = Some s /\ jvalid pm_any [] 50 s (JObj [("gv", JInt 3)]) = true.
-Proof. exact typevar_field_any_binding. Qed.
 
 Theorem C06_typevar_required_follows_binding : forall (omit: bool) (f: field),
   f_tv f = true -> f_has_default f = false -> f_dnone f = false ->
